@@ -7,6 +7,17 @@ VERIF = os.path.dirname(os.path.dirname(os.path.abspath(__file__)))
 SCENARIO_REPLAYERS = {}     # qual prefix -> function(pid, qual, obligation, repo) -> dict or None
 
 
+def _register():
+    from . import scenarios, edfalsify
+    SCENARIO_REPLAYERS["spake2."] = scenarios.replayer
+    SCENARIO_REPLAYERS["lemma."] = scenarios.replayer
+    SCENARIO_REPLAYERS["groups."] = scenarios.replayer
+    SCENARIO_REPLAYERS["ed25519_"] = scenarios.replayer
+    SCENARIO_REPLAYERS["util."] = scenarios.replayer
+    SCENARIO_REPLAYERS["params."] = scenarios.replayer
+    SCENARIO_REPLAYERS["ilaw."] = scenarios.replayer
+
+
 def conc(v):
     """model value -> oracle-encodable python value, or raise"""
     if v is None or isinstance(v, (bool, int, str)):
@@ -72,15 +83,23 @@ def try_search(qual, o, repo, seed=0):
     return out
 
 
+_SCEN_CACHE = {}
+
+
 def write_replay(pid, qual, o, repo):
+    if not SCENARIO_REPLAYERS:
+        _register()
     d = os.path.join(VERIF, "replays" if os.path.realpath(repo.root) == "/repo" else ".selftest/replays", pid)
     os.makedirs(d, exist_ok=True)
     fn = re.sub(r"[^A-Za-z0-9_.#-]+", "_", o["name"])[:150] + ".json"
     path = os.path.join(d, fn)
     attempts = []
     found = False
+    if o.get("_prefound"):
+        attempts.append(dict(kind="bounded-search", confirmed=True, finding=o["_prefound"]["finding"]))
+        found = True
     try:
-        a = try_direct(qual, o, repo)
+        a = try_direct(qual, o, repo) if not found else None
         if a is not None:
             attempts.append(a)
             found = found or a["confirmed"]
@@ -98,7 +117,9 @@ def write_replay(pid, qual, o, repo):
         for prefix, fn_ in SCENARIO_REPLAYERS.items():
             if qual.startswith(prefix):
                 try:
-                    a = fn_(pid, qual, o, repo)
+                    if "scen" not in _SCEN_CACHE:        # one battery per check run, shared by all failed obligations
+                        _SCEN_CACHE["scen"] = fn_(pid, qual, o, repo)
+                    a = _SCEN_CACHE["scen"]
                 except Exception as e:
                     a = {"kind": "scenario", "error": "%s: %s" % (type(e).__name__, e)}
                 if a is not None:
